@@ -14,6 +14,11 @@ EXTENDS ArcheAbs, Json, IOUtils, SequencesExt
 
 Trace == ndJsonDeserialize(IOEnv.TRACE)
 
+(* STRICT=1: do not skip relation filters whose component part also matches entities without *)
+(* relation component (known finding E17); used for the directed scenario only.               *)
+Strict == "STRICT" \in DOMAIN IOEnv /\ IOEnv.STRICT = "1"
+OpenRel(w, f) == ~Strict /\ OpenRelCase(w, f)
+
 VARIABLES l, g, viol, nchk
 
 vars == <<l, g, viol, nchk>>
@@ -108,11 +113,11 @@ PoolChecks(ln, wPre, wPost) ==
 
 (* Registered filters select exactly what their originals select (C07). *)
 SweepChecks(w, sw) ==
-    LET ok(s) == OpenRelCase(w, s.f) \/
+    LET ok(s) == OpenRel(w, s.f) \/
                  ( /\ s.cerr = "" /\ s.oerr = ""
                    /\ NoDup(s.cached) /\ NoDup(s.orig)
                    /\ Range(s.cached) = Range(s.orig) )
-        okAbs(s) == OpenRelCase(w, s.f) \/ Range(s.orig) = QuerySet(w, s.f)
+        okAbs(s) == OpenRel(w, s.f) \/ Range(s.orig) = QuerySet(w, s.f)
     IN << Chk("C07", "sweep-cached-equals-original", \A i \in DOMAIN sw : ok(sw[i])),
           Chk("C03", "sweep-original-is-matchset", \A i \in DOMAIN sw : okAbs(sw[i])) >>
 
@@ -158,7 +163,11 @@ EventChecks(wPre, wPost, logged, cores) ==
 ---------------------------------------------------------------------------
 (* Query panels *)
 
+(* generic QueryN.Get: position i holds the component of the i-th type parameter (nil if absent) *)
+GetPosOK(w, h, gp) == \A i \in DOMAIN gp : gp[i] = (IF (i - 1) \in w.comps[h] THEN 1 ELSE 0)
+
 PosOK(w, p) ==
+    /\ ("getpos" \in DOMAIN p => GetPosOK(w, p.e, p.getpos))
     /\ p.e \in w.alive
     /\ Range(p.comps) = w.comps[p.e]
     /\ p.alt = <<>>
@@ -307,7 +316,8 @@ EvBatchExchange(ln, w) ==
         M == BatchSet(w, f)
         up == BatchExUpWhy(w, f, a.add, a.rem, a.hasRel, a.tgt)
     IN
-    IF usable /\ OpenRelCase(w, f) THEN Skip(w)
+    IF "noRelPanic" \in DOMAIN a /\ a.noRelPanic THEN Res(w, OutcomeChecks(ln, "args"), {})
+    ELSE IF usable /\ OpenRel(w, f) THEN Skip(w)
     ELSE IF up # "" THEN Res(w, OutcomeChecks(ln, up), {})
     ELSE IF noop THEN
         (* returns 0 / an empty query *)
@@ -341,7 +351,7 @@ EvBatchSetRelation(ln, w) ==
         up == BatchSetRelUpWhy(w, f, a.tgt)
         Ch == BatchSetRelChanged(w, M, a.tgt)
     IN
-    IF usable /\ OpenRelCase(w, f) THEN Skip(w)
+    IF usable /\ OpenRel(w, f) THEN Skip(w)
     ELSE IF up # "" THEN Res(w, OutcomeChecks(ln, up), {})
     ELSE IF ~BatchSetRelAllRel(w, M, a.rel) THEN Skip(w)
     ELSE
@@ -363,7 +373,7 @@ EvBatchRemove(ln, w) ==
         M == BatchSet(w, f)
         up == BatchRemoveUpWhy(w, f)
     IN
-    IF usable /\ OpenRelCase(w, f) THEN Skip(w)
+    IF usable /\ OpenRel(w, f) THEN Skip(w)
     ELSE IF up # "" THEN Res(w, OutcomeChecks(ln, up), {})
     ELSE
         LET good == ~ln.res.panic
@@ -375,7 +385,7 @@ EvBatchRemove(ln, w) ==
 EvPanel(ln, w) ==
     LET f == ln.args.f usable == FilterUsable(w, f) IN
     IF ~usable THEN Res(w, OutcomeChecks(ln, "args"), {})
-    ELSE IF OpenRelCase(w, f) THEN Skip(w)
+    ELSE IF OpenRel(w, f) THEN Skip(w)
     ELSE Res(w, OutcomeChecks(ln, "") \o
                 (IF ln.res.panic THEN <<>> ELSE PanelChecks(w, QuerySet(w, f), ln.panel, "C03")), {})
 
@@ -385,7 +395,7 @@ EvOpenQuery(ln, w) ==
     ELSE IF ln.res.panic THEN Res(w, OutcomeChecks(ln, ""), {})
     ELSE Res(OpenHeld(w, ln.qinfo.at, {}),
              OutcomeChecks(ln, "") \o
-             (IF OpenRelCase(w, f) THEN <<>> ELSE QInfoChecks(QuerySet(w, f), ln.qinfo, "C03")) \o
+             (IF OpenRel(w, f) THEN <<>> ELSE QInfoChecks(QuerySet(w, f), ln.qinfo, "C03")) \o
              << Chk("C09", "held-query-id", ln.res.ret = w.nq) >>, {})
 
 EvQuery(ln, w) ==
@@ -407,10 +417,10 @@ EvQuery(ln, w) ==
                  ELSE IF p <= n
                  THEN LET w1 == [w EXCEPT !.open[q].pos = p] IN
                       Res(w1, OutcomeChecks(ln, "") \o
-                          << Chk("C03", "held-step-lands-like-nexts",
+                          << Chk(o.prop, "held-step-lands-like-nexts",
                                  ln.res.ret = 1 /\ ln.pos.e = o.order[p] /\ PosOK(w, ln.pos)) >>, {})
                  ELSE Res(CloseHeld(w, q), OutcomeChecks(ln, "") \o
-                          << Chk("C03", "held-exhaustion", ln.res.ret = 0) >>, o.pend)
+                          << Chk(o.prop, "held-exhaustion", ln.res.ret = 0) >>, o.pend)
 
 EvRegister(ln, w) ==
     LET f == ln.args.f
@@ -438,13 +448,14 @@ EvRead(ln, w) ==
         alive == h \in w.alive
         isRel == alive /\ a.c \in w.comps[h] /\ a.c \in w.cfg.rels
         why == CASE ln.api = "Alive" -> ""
-                 [] ln.api = "Relations.Get" -> IF isRel THEN "" ELSE "args"
+                 [] ln.api \in {"Relations.Get", "generic.Map1.GetRelation"} -> IF isRel THEN "" ELSE "args"
                  [] OTHER -> IF alive THEN "" ELSE "args"
         good == why = "" /\ ~ln.res.panic
         ok == CASE ln.api = "Alive" -> ln.res.ret = (IF alive THEN 1 ELSE 0)
-                [] ln.api \in {"Get", "Has"} -> ln.res.ret = (IF a.c \in w.comps[h] THEN 1 ELSE 0)
+                [] ln.api \in {"Get", "Has", "generic.Map1.Get", "generic.Map1.Has"} -> ln.res.ret = (IF a.c \in w.comps[h] THEN 1 ELSE 0)
+                [] ln.api = "generic.Map.Get" -> Len(ln.getpos) = ln.res.ret /\ GetPosOK(w, h, ln.getpos)
                 [] ln.api \in {"Mask", "Ids"} -> ln.res.ret = Cardinality(w.comps[h])
-                [] ln.api = "Relations.Get" -> ln.res.handles = << w.tgt[h] >>
+                [] ln.api \in {"Relations.Get", "generic.Map1.GetRelation"} -> ln.res.handles = << w.tgt[h] >>
     IN Res(w, OutcomeChecks(ln, why) \o
               << Chk(IF ln.api = "Relations.Get" THEN "C05" ELSE IF ln.api = "Alive" THEN "C02" ELSE "C01",
                      "read-result", ~good \/ ok) >>, {})
@@ -482,8 +493,49 @@ EvAddListener(ln, w) ==
         w1 == [w EXCEPT !.cfg.subs = Append(@, [on |-> TRUE, S |-> a.s, C |-> Range(a.c), hasC |-> a.hasc])]
     IN Res(IF ln.res.panic THEN w ELSE w1, << Chk("C12", "legal-operation-panicked", ~ln.res.panic) >>, {})
 
+(* Generic filter builders (C18) *)
+EvGNewFilter(ln, w) ==
+    Res(IF ln.res.panic THEN w ELSE [w EXCEPT !.gfs = Append(@, GFInit(ln.args.ar))],
+        << Chk("C18", "legal-operation-panicked", ~ln.res.panic),
+           Chk("C18", "filter-index", ln.res.panic \/ ln.res.ret = Len(w.gfs)) >>, {})
+
+EvGBuild(ln, w) ==
+    LET a == ln.args
+        f == w.gfs[a.gf + 1]
+        ids == Range(a.ids)
+        why == CASE a.m = "Register" -> GFRegisterWhy(f, w.cfg.rels)
+                 [] a.m = "Unregister" -> GFUnregisterWhy(f)
+                 [] OTHER -> GFBuildWhy(f, a.m, ids)
+        good == why = "" /\ ~ln.res.panic
+        f2 == CASE a.m = "Register" -> [f EXCEPT !.locked = TRUE]
+                [] a.m = "Unregister" -> [f EXCEPT !.locked = FALSE]
+                [] OTHER -> GFBuildStep(f, a.m, ids, a.hasTgt, a.tgt)
+    IN Res(IF good THEN [w EXCEPT !.gfs[a.gf + 1] = f2] ELSE w,
+           << Chk("C18", "legal-operation-panicked", why # "" \/ ~ln.res.panic),
+              Chk("C10", "illegal-operation-accepted", why = "" \/ ln.res.panic) >>, {})
+
+EvGQuery(ln, w) ==
+    LET a == ln.args
+        f == w.gfs[a.gf + 1]
+        why == GFQueryWhy(f, w.cfg.rels, a.hasTgt)
+        flt == GFFilter(f, a.hasTgt, a.tgt)
+        st == IF a.hold THEN <<>> ELSE ln.panel.steps
+        relOK(p) == IF f.rel = -1 THEN p.grelPanic
+                    ELSE ~p.grelPanic /\ p.grel = w.tgt[p.e]
+    IN IF a.hasTgt /\ f.rel = -1 THEN Skip(w)   \* a target without WithRelation: unspecified (documented to panic)
+       ELSE IF why # "" \/ ln.res.panic
+       THEN Res(w, << Chk("C18", "legal-operation-panicked", why # "" \/ ~ln.res.panic),
+                      Chk("C10", "illegal-operation-accepted", why = "" \/ ln.res.panic) >>, {})
+       ELSE IF a.hold
+       THEN Res(OpenHeldP(w, ln.qinfo.at, {}, "C18"), QInfoChecks(QuerySet(w, flt), ln.qinfo, "C18"), {})
+       ELSE Res(w, PanelChecks(w, QuerySet(w, flt), ln.panel, "C18") \o
+                   << Chk("C18", "query-relation", \A i \in DOMAIN st : st[i].ok => relOK(st[i].pos)) >>, {})
+
 Eval(ln, w) ==
     CASE ln.op = "NewWorld" -> EvNewWorld(ln, w)
+      [] ln.op = "GNewFilter" -> EvGNewFilter(ln, w)
+      [] ln.op = "GBuild" -> EvGBuild(ln, w)
+      [] ln.op = "GQuery" -> EvGQuery(ln, w)
       [] ln.op = "AddListener" -> EvAddListener(ln, w)
       [] ln.op = "ResGet" -> EvResGet(ln, w)
       [] ln.op = "Dump" -> EvDump(ln, w)
